@@ -1,8 +1,29 @@
-(* C08 lemmas *)
-From Coq Require Import ZArith QArith Qabs List Bool Lia Lqa.
+(* C08 lemmas: closed-form rules (trapezoid, Simpson), quadrect, tensor products *)
+From Coq Require Import ZArith QArith Qabs List Bool Lia Lqa Morphisms.
 From QE Require Import C08.Model.
 Import ListNotations.
 Open Scope Q_scope.
+
+(* ------------------------------------------------------------------ sums *)
+Lemma sumq_app l1 l2 : sumq (l1 ++ l2) == sumq l1 + sumq l2.
+Proof. induction l1; simpl; [ring | rewrite IHl1; ring]. Qed.
+
+Lemma sumq_map_ext {A} (g g' : A -> Q) l :
+  (forall i, In i l -> g i == g' i) -> sumq (map g l) == sumq (map g' l).
+Proof.
+  induction l; simpl; intros H; [reflexivity|].
+  rewrite (H a) by (now left). rewrite IHl; [reflexivity|]. intros; apply H; now right.
+Qed.
+
+Lemma sumq_seq_S g s n : sumq (map g (seq s (S n))) == sumq (map g (seq s n)) + g (s + n)%nat.
+Proof. rewrite seq_S, map_app, sumq_app. simpl. ring. Qed.
+
+Lemma sumq_map_scale {A} c (g : A -> Q) l : sumq (map (fun i => c * g i) l) == c * sumq (map g l).
+Proof. induction l; simpl; [ring | rewrite IHl; ring]. Qed.
+
+Lemma quad_tab {X} (x : nat -> X) (w : nat -> Q) f l :
+  quad (map x l) (map w l) f == sumq (map (fun i => w i * f (x i)) l).
+Proof. unfold quad. induction l; simpl; [reflexivity | rewrite IHl; reflexivity]. Qed.
 
 Lemma quadrect_is_quad {X} (f : X -> Q) nodes weights :
   quadrect f nodes weights == quad nodes weights f.
@@ -10,4 +31,504 @@ Proof.
   unfold quadrect, quad, dotq. revert weights.
   induction nodes as [|x r IH]; intros [|w ws]; simpl; try reflexivity.
   rewrite IH. reflexivity.
+Qed.
+
+Lemma quad_ext {X} (nodes : list X) weights f g :
+  (forall x, f x == g x) -> quad nodes weights f == quad nodes weights g.
+Proof.
+  intros H. unfold quad. generalize (combine nodes weights). intros l.
+  induction l; simpl; [reflexivity|]. rewrite IHl, H. reflexivity.
+Qed.
+
+Lemma quad_const1 {X} (nodes : list X) weights :
+  length nodes = length weights -> quad nodes weights (fun _ => 1) == sumq weights.
+Proof.
+  unfold quad. revert weights. induction nodes as [|x r IH]; intros [|w ws]; simpl; intros H; try discriminate; [reflexivity|].
+  rewrite IH by lia. ring.
+Qed.
+
+(* ------------------------------------------------------------------ qn *)
+Lemma qn_S i : qn (S i) == qn i + 1.
+Proof. unfold qn. rewrite Nat2Z.inj_succ, <- Z.add_1_r, inject_Z_plus. reflexivity. Qed.
+Lemma qn_0 : qn 0 == 0. Proof. reflexivity. Qed.
+Lemma qn_pos i : (0 < i)%nat -> 0 < qn i.
+Proof. intros. unfold qn. change 0 with (inject_Z 0). rewrite <- Zlt_Qlt. lia. Qed.
+Lemma qn_nonneg i : 0 <= qn i.
+Proof. unfold qn. change 0 with (inject_Z 0). rewrite <- Zle_Qle. lia. Qed.
+Lemma qn_le i j : (i <= j)%nat -> qn i <= qn j.
+Proof. intros. unfold qn. rewrite <- Zle_Qle. lia. Qed.
+Lemma qn_add i j : qn (i + j) == qn i + qn j.
+Proof. unfold qn. rewrite Nat2Z.inj_add, inject_Z_plus. reflexivity. Qed.
+
+(* ------------------------------------------------------------------ linspace *)
+Lemma linspace_length a b n : length (linspace a b n) = n.
+Proof. destruct n as [|[|m]]; simpl; auto. rewrite map_length, seq_length. reflexivity. Qed.
+
+(* for n = m+1 >= 2 points every node is a + i h, h = (b-a)/m (the forced last node b included) *)
+Lemma linspace_nth a b m i : (1 <= m)%nat -> (i <= m)%nat ->
+  nthq (linspace a b (S m)) i == a + qn i * ((b - a) / qn m).
+Proof.
+  intros Hm Hi. destruct m as [|k]; [lia|].
+  unfold nthq, linspace.
+  set (g := fun i0 : nat => if Nat.eqb i0 (S k) then b else a + qn i0 * ((b - a) / qn (S k))).
+  rewrite (nth_indep _ 0 (g 0%nat)) by (rewrite map_length, seq_length; lia).
+  rewrite (map_nth g), seq_nth by lia. simpl Nat.add. unfold g at 1.
+  destruct (Nat.eqb i (S k)) eqn:E.
+  - apply Nat.eqb_eq in E. subst i. field. intro H. pose proof (qn_pos (S k) ltac:(lia)). lra.
+  - reflexivity.
+Qed.
+
+Lemma linspace_map a b m : (1 <= m)%nat ->
+  linspace a b (S m) = map (fun i => if Nat.eqb i m then b else a + qn i * ((b - a) / qn m)) (seq 0 (S m)).
+Proof. intros. destruct m; [lia|]. reflexivity. Qed.
+
+Lemma node_eq a b m i : (1 <= m)%nat -> (i <= m)%nat ->
+  (if Nat.eqb i m then b else a + qn i * ((b - a) / qn m)) == a + qn i * ((b - a) / qn m).
+Proof.
+  intros Hm Hi. destruct (Nat.eqb i m) eqn:E; [|reflexivity].
+  apply Nat.eqb_eq in E. subst i. field. intro H. pose proof (qn_pos m ltac:(lia)). lra.
+Qed.
+
+Lemma node_range a b m i : a < b -> (1 <= m)%nat -> (i <= m)%nat ->
+  a <= a + qn i * ((b - a) / qn m) <= b.
+Proof.
+  intros Hab Hm Hi.
+  pose proof (qn_pos m ltac:(lia)) as Pm. pose proof (qn_nonneg i) as Pi. pose proof (qn_le i m Hi) as Pim.
+  set (h := (b - a) / qn m).
+  assert (Hh : h * qn m == b - a) by (unfold h; field; lra).
+  assert (Hpos : 0 < h) by (unfold h; apply Qlt_shift_div_l; lra).
+  split.
+  - assert (0 <= qn i * h) by (apply Qmult_le_0_compat; lra). lra.
+  - assert (qn i * h <= qn m * h) by (apply Qmult_le_compat_r; lra). lra.
+Qed.
+
+Lemma dx_eq a b m : (1 <= m)%nat ->
+  nthq (linspace a b (S m)) 1 - nthq (linspace a b (S m)) 0 == (b - a) / qn m.
+Proof.
+  intros Hm. rewrite !linspace_nth by lia. change (qn 1) with 1. change (qn 0) with 0. ring.
+Qed.
+
+(* ------------------------------------------------------------------ trapezoid *)
+(* weights before the last index: h/2 at 0, h elsewhere *)
+Definition trap_w0 (h : Q) (i : nat) : Q := if Nat.eqb i 0 then h * (1 # 2) else h.
+
+Section Trap.
+Variables (a h c0 c1 : Q).
+Let f (x : Q) := c0 + c1 * x.
+Let F (x : Q) := c0 * x + c1 * (x * x) * (1 # 2).
+Let g (i : nat) := f (a + qn i * h).
+
+Lemma trap_sum m : (1 <= m)%nat ->
+  sumq (map (fun i => trap_w0 h i * g i) (seq 0 m)) + h * (1 # 2) * g m == F (a + qn m * h) - F a.
+Proof.
+  induction m as [|m IH]; [lia|]. intros _.
+  destruct m as [|m'].
+  - simpl. unfold g, f, F, trap_w0. simpl Nat.eqb. cbv iota. change (qn 0) with 0. change (qn 1) with 1. ring.
+  - rewrite sumq_seq_S. simpl Nat.add.
+    assert (IH' := IH ltac:(lia)). clear IH.
+    assert (E : trap_w0 h (S m') = h) by reflexivity. rewrite E.
+    unfold g, f, F in *. rewrite (qn_S (S m')).
+    set (S0 := sumq _) in *. set (q := qn (S m')) in *.
+    transitivity ((S0 + h * (1 # 2) * (c0 + c1 * (a + q * h))) +
+                  (h * (1 # 2) * (c0 + c1 * (a + q * h)) + h * (1 # 2) * (c0 + c1 * (a + (q + 1) * h)))); [ring|].
+    rewrite IH'. ring.
+Qed.
+End Trap.
+
+Lemma trap_spec n a b : (2 <= n)%nat -> a < b ->
+  exists nodes weights, qnwtrap1 n a b = Some (nodes, weights) /\
+    length nodes = n /\ length weights = n /\
+    Forall (fun x => a <= x <= b) nodes /\
+    Forall (fun w => 0 < w) weights /\
+    sumq weights == b - a /\
+    forall c0 c1, quad nodes weights (fun x => c0 + c1 * x)
+                  == c0 * (b - a) + c1 * ((b * b - a * a) * (1 # 2)).
+Proof.
+  intros Hn Hab. destruct n as [|[|k]]; try lia. set (m := S k). assert (Hm : (1 <= m)%nat) by (unfold m; lia).
+  unfold qnwtrap1. replace (Nat.ltb (S m) 2) with false by (symmetry; apply Nat.ltb_ge; lia).
+  eexists; eexists; split; [reflexivity|].
+  pose proof (qn_pos m ltac:(lia)) as Pm.
+  set (h := (b - a) / qn m).
+  assert (Hh : h * qn m == b - a) by (unfold h; field; lra).
+  assert (Hpos : 0 < h) by (unfold h; apply Qlt_shift_div_l; lra).
+  assert (Hdx := dx_eq a b m Hm). fold h in Hdx.
+  set (dx := nthq (linspace a b (S m)) 1 - nthq (linspace a b (S m)) 0) in *.
+  assert (Hquad : forall c0 c1,
+    quad (linspace a b (S m))
+         (map (fun i => if Nat.eqb i 0 || Nat.eqb i (S m - 1) then dx * 1 * (1 # 2) else dx * 1) (seq 0 (S m)))
+         (fun x => c0 + c1 * x) == c0 * (b - a) + c1 * ((b * b - a * a) * (1 # 2))).
+  { intros c0 c1. rewrite linspace_map by lia. rewrite quad_tab.
+    rewrite sumq_seq_S. simpl Nat.add.
+    rewrite (sumq_map_ext _ (fun i => trap_w0 h i * (c0 + c1 * (a + qn i * h)))).
+    2:{ intros i Hi. apply in_seq in Hi.
+        replace (Nat.eqb i (S m - 1)) with false by (symmetry; apply Nat.eqb_neq; lia).
+        replace (Nat.eqb i m) with false by (symmetry; apply Nat.eqb_neq; lia).
+        unfold trap_w0. fold h. destruct (Nat.eqb i 0); simpl orb; cbv iota; rewrite Hdx; ring. }
+    replace (Nat.eqb m 0) with false by (symmetry; apply Nat.eqb_neq; lia).
+    replace (Nat.eqb m (S m - 1)) with true by (symmetry; apply Nat.eqb_eq; lia).
+    rewrite Nat.eqb_refl. simpl orb. cbv iota.
+    pose proof (trap_sum a h c0 c1 m Hm) as T. cbv zeta in T.
+    rewrite Hdx.
+    assert (Hb : b == a + qn m * h) by lra.
+    set (S0 := sumq _) in *.
+    transitivity (S0 + h * (1 # 2) * (c0 + c1 * (a + qn m * h))).
+    { rewrite <- Hb. ring. }
+    rewrite T. rewrite <- Hb. ring. }
+  split; [apply linspace_length|]. split; [rewrite map_length, seq_length; reflexivity|].
+  split; [|split; [|split]].
+  - rewrite linspace_map by lia. apply Forall_forall. intros x Hx. apply in_map_iff in Hx.
+    destruct Hx as [i [Hx Hi]]. apply in_seq in Hi. subst x.
+    rewrite node_eq by lia. apply node_range; auto; lia.
+  - apply Forall_forall. intros w Hw. apply in_map_iff in Hw. destruct Hw as [i [Hw _]]. subst w.
+    destruct (_ || _); rewrite Hdx; lra.
+  - rewrite <- quad_const1 with (nodes := linspace a b (S m)).
+    2:{ rewrite linspace_length, map_length, seq_length. reflexivity. }
+    rewrite (quad_ext _ _ _ (fun x => 1 + 0 * x)) by (intros; ring).
+    rewrite Hquad. ring.
+  - exact Hquad.
+Qed.
+
+(* ------------------------------------------------------------------ Simpson *)
+Definition simp_c0 (i : nat) : Q := if Nat.eqb i 0 then 1 else if Nat.even i then 2 else 4.
+
+Lemma even_2p p : Nat.even (2 * p) = true.
+Proof. rewrite Nat.even_mul. reflexivity. Qed.
+Lemma even_2p1 p : Nat.even (2 * p + 1) = false.
+Proof. rewrite Nat.even_add, even_2p. reflexivity. Qed.
+
+Section Simp.
+Variables (a h c0 c1 c2 c3 : Q).
+Let f (x : Q) := c0 + c1 * x + c2 * (x * x) + c3 * (x * x * x).
+Let F (x : Q) := c0 * x + c1 * (x * x) * (1 # 2) + c2 * (x * x * x) * (1 # 3) + c3 * (x * x * x * x) * (1 # 4).
+Let g (i : nat) := f (a + qn i * h).
+
+Local Instance simp_f_proper : Proper (Qeq ==> Qeq) f.
+Proof. unfold f. solve_proper. Qed.
+Local Instance simp_F_proper : Proper (Qeq ==> Qeq) F.
+Proof. unfold F. solve_proper. Qed.
+
+Lemma simp_panel x : h * (1 # 3) * (f x + 4 * f (x + h) + f (x + 2 * h)) == F (x + 2 * h) - F x.
+Proof. unfold f, F. ring. Qed.
+
+Lemma simp_sum p : (1 <= p)%nat ->
+  h * (1 # 3) * (sumq (map (fun i => simp_c0 i * g i) (seq 0 (2 * p))) + g (2 * p)%nat)
+  == F (a + qn (2 * p) * h) - F a.
+Proof.
+  induction p as [|p IH]; [lia|]. intros _.
+  destruct p as [|p'].
+  - simpl. unfold g, simp_c0. simpl Nat.eqb. simpl Nat.even. cbv iota.
+    pose proof (simp_panel a) as P. unfold f, F in *.
+    change (qn 0) with 0. change (qn 1) with 1. change (qn 2) with 2.
+    rewrite <- P. ring.
+  - assert (IH' := IH ltac:(lia)). clear IH.
+    replace (2 * S (S p'))%nat with (S (S (2 * S p'))) by lia.
+    rewrite !sumq_seq_S. rewrite !Nat.add_0_l.
+    assert (E1 : simp_c0 (2 * S p') = 2).
+    { unfold simp_c0. rewrite even_2p. replace (Nat.eqb (2 * S p') 0) with false; [reflexivity|].
+      symmetry. apply Nat.eqb_neq. lia. }
+    assert (E2 : simp_c0 (S (2 * S p')) = 4).
+    { unfold simp_c0. replace (S (2 * S p')) with (2 * S p' + 1)%nat by lia. rewrite even_2p1.
+      replace (Nat.eqb (2 * S p' + 1) 0) with false; [reflexivity|]. symmetry. apply Nat.eqb_neq. lia. }
+    rewrite E1, E2.
+    set (k := (2 * S p')%nat) in *.
+    pose proof (simp_panel (a + qn k * h)) as P.
+    unfold g in *. rewrite !qn_S.
+    set (S0 := sumq _) in *.
+    transitivity ((h * (1 # 3) * (S0 + f (a + qn k * h))) +
+                  h * (1 # 3) * (f (a + qn k * h) + 4 * f (a + qn k * h + h) + f (a + qn k * h + 2 * h))).
+    { unfold f. ring. }
+    rewrite IH', P. unfold F. ring.
+Qed.
+End Simp.
+
+Lemma simp_n_odd n0 : Nat.even (simp_n n0) = false.
+Proof.
+  unfold simp_n. destruct (Nat.even n0) eqn:E; [|exact E].
+  rewrite Nat.even_succ. rewrite <- Nat.negb_even, E. reflexivity.
+Qed.
+
+Lemma simp_spec n0 a b : (3 <= simp_n n0)%nat -> a < b ->
+  exists nodes weights, qnwsimp1 n0 a b = Some (nodes, weights) /\
+    length nodes = simp_n n0 /\ length weights = simp_n n0 /\
+    Forall (fun x => a <= x <= b) nodes /\
+    Forall (fun w => 0 < w) weights /\
+    sumq weights == b - a /\
+    forall c0 c1 c2 c3,
+      quad nodes weights (fun x => c0 + c1 * x + c2 * (x * x) + c3 * (x * x * x))
+      == c0 * (b - a) + c1 * ((b * b - a * a) * (1 # 2))
+         + c2 * ((b * b * b - a * a * a) * (1 # 3))
+         + c3 * ((b * b * b * b - a * a * a * a) * (1 # 4)).
+Proof.
+  intros Hn Hab. unfold qnwsimp1.
+  pose proof (simp_n_odd n0) as Hodd. set (n := simp_n n0) in *.
+  assert (Hp : exists p, n = (2 * p + 1)%nat).
+  { assert (O : Nat.odd n = true) by (rewrite <- Nat.negb_even, Hodd; reflexivity).
+    apply Nat.odd_spec in O. exact O. }
+  destruct Hp as [p Hp]. assert (Hp1 : (1 <= p)%nat) by lia.
+  replace (Nat.ltb n 3) with false by (symmetry; apply Nat.ltb_ge; lia).
+  eexists; eexists; split; [reflexivity|].
+  set (m := (2 * p)%nat). assert (Hnm : n = S m) by lia. assert (Hm : (1 <= m)%nat) by lia.
+  pose proof (qn_pos m ltac:(lia)) as Pm.
+  set (h := (b - a) / qn m).
+  assert (Hh : h * qn m == b - a) by (unfold h; field; lra).
+  assert (Hpos : 0 < h) by (unfold h; apply Qlt_shift_div_l; lra).
+  rewrite Hnm in *.
+  assert (Hdx := dx_eq a b m Hm). fold h in Hdx.
+  set (dx := nthq (linspace a b (S m)) 1 - nthq (linspace a b (S m)) 0) in *.
+  assert (Hquad : forall c0 c1 c2 c3,
+    quad (linspace a b (S m)) (map (fun i => dx / 3 * simp_coef (S m) i) (seq 0 (S m)))
+         (fun x => c0 + c1 * x + c2 * (x * x) + c3 * (x * x * x))
+    == c0 * (b - a) + c1 * ((b * b - a * a) * (1 # 2))
+         + c2 * ((b * b * b - a * a * a) * (1 # 3))
+         + c3 * ((b * b * b * b - a * a * a * a) * (1 # 4))).
+  { intros c0 c1 c2 c3. rewrite linspace_map by lia. rewrite quad_tab.
+    rewrite sumq_seq_S. simpl Nat.add.
+    set (f := fun x : Q => c0 + c1 * x + c2 * (x * x) + c3 * (x * x * x)).
+    rewrite (sumq_map_ext _ (fun i => h * (1 # 3) * (simp_c0 i * f (a + qn i * h)))).
+    2:{ intros i Hi. apply in_seq in Hi. unfold simp_coef, simp_c0.
+        replace (Nat.eqb i (S m - 1)) with false by (symmetry; apply Nat.eqb_neq; lia).
+        replace (Nat.eqb i m) with false by (symmetry; apply Nat.eqb_neq; lia).
+        fold h. rewrite orb_false_r. rewrite Hdx. unfold f. set (cc := if Nat.eqb i 0 then _ else _). field. }
+    rewrite sumq_map_scale.
+    unfold simp_coef. replace (Nat.eqb m (S m - 1)) with true by (symmetry; apply Nat.eqb_eq; lia).
+    rewrite orb_true_r. rewrite Nat.eqb_refl.
+    pose proof (simp_sum a h c0 c1 c2 c3 p Hp1) as T. cbv zeta in T. fold m in T. fold f in T.
+    rewrite Hdx.
+    assert (Hb : b == a + qn m * h) by lra.
+    set (S0 := sumq _) in *.
+    assert (Efb : f b == f (a + qn m * h)) by (unfold f; rewrite <- Hb; reflexivity).
+    transitivity (h * (1 # 3) * (S0 + f b)).
+    { unfold f. field. }
+    rewrite Efb, T. rewrite <- Hb. ring. }
+  split; [apply linspace_length|]. split; [rewrite map_length, seq_length; reflexivity|].
+  split; [|split; [|split]].
+  - rewrite linspace_map by lia. apply Forall_forall. intros x Hx. apply in_map_iff in Hx.
+    destruct Hx as [i [Hx Hi]]. apply in_seq in Hi. subst x.
+    rewrite node_eq by lia. apply node_range; auto; lia.
+  - apply Forall_forall. intros w Hw. apply in_map_iff in Hw. destruct Hw as [i [Hw _]]. subst w.
+    rewrite Hdx. unfold simp_coef.
+    assert (0 < h / 3) by (apply Qlt_shift_div_l; lra).
+    destruct (_ || _); [lra|]. destruct (Nat.even i); lra.
+  - rewrite <- quad_const1 with (nodes := linspace a b (S m)).
+    2:{ rewrite linspace_length, map_length, seq_length. reflexivity. }
+    rewrite (quad_ext _ _ _ (fun x => 1 + 0 * x + 0 * (x * x) + 0 * (x * x * x))) by (intros; ring).
+    rewrite Hquad. ring.
+  - exact Hquad.
+Qed.
+
+(* ------------------------------------------------------------------ tensor products *)
+(* prepend a dimension that varies fastest *)
+Definition prep (x0 : list Q) (R : list (list Q)) : list (list Q) :=
+  flat_map (fun row => map (fun x => x :: row) x0) R.
+
+Lemma flat_map_map {A B C} (f : A -> B) (g : B -> list C) l :
+  flat_map g (map f l) = flat_map (fun a => g (f a)) l.
+Proof. induction l; simpl; [reflexivity | rewrite IHl; reflexivity]. Qed.
+
+Lemma map_flat_map {A B C} (f : B -> C) (g : A -> list B) l :
+  map f (flat_map g l) = flat_map (fun a => map f (g a)) l.
+Proof. induction l; simpl; [reflexivity | rewrite map_app, IHl; reflexivity]. Qed.
+
+Lemma flat_map_flat_map {A B C} (f : A -> list B) (g : B -> list C) l :
+  flat_map g (flat_map f l) = flat_map (fun a => flat_map g (f a)) l.
+Proof. induction l; simpl; [reflexivity | rewrite flat_map_app, IHl; reflexivity]. Qed.
+
+Lemma flat_map_ext' {A B} (f g : A -> list B) l : (forall a, f a = g a) -> flat_map f l = flat_map g l.
+Proof. intros H. induction l; simpl; [reflexivity | rewrite H, IHl; reflexivity]. Qed.
+
+(* swapping the two enumerations is NOT what happens: gridmake2 appends a slowest dimension, and
+   this commutes with prepending a fastest one *)
+Lemma gridmake2_prep x0 R y : gridmake2 (prep x0 R) y = prep x0 (gridmake2 R y).
+Proof.
+  unfold gridmake2, prep.
+  rewrite flat_map_flat_map.
+  apply flat_map_ext'. intros yv.
+  rewrite map_flat_map, flat_map_map.
+  apply flat_map_ext'. intros row. rewrite map_map. reflexivity.
+Qed.
+
+Lemma fold_gridmake2_prep x0 ys : forall R,
+  fold_left gridmake2 ys (prep x0 R) = prep x0 (fold_left gridmake2 ys R).
+Proof. induction ys as [|y ys IH]; intros R; simpl; [reflexivity|]. rewrite gridmake2_prep. apply IH. Qed.
+
+Lemma gridmake_rows_cons x0 x1 rest :
+  gridmake_rows x0 (x1 :: rest) = prep x0 (gridmake_rows x1 rest).
+Proof.
+  unfold gridmake_rows. simpl fold_left.
+  rewrite <- fold_gridmake2_prep. f_equal.
+  unfold gridmake2, prep. rewrite flat_map_map.
+  apply flat_map_ext'. intros yv. rewrite map_map. reflexivity.
+Qed.
+
+Lemma ckron_rev_cons w0 w1 rest :
+  ckron (rev (w0 :: w1 :: rest)) = kron (ckron (rev (w1 :: rest))) w0.
+Proof.
+  change (rev (w0 :: w1 :: rest)) with (rev (w1 :: rest) ++ [w0]).
+  destruct (rev (w1 :: rest)) as [|u t] eqn:E.
+  - exfalso. apply (f_equal (@length _)) in E. rewrite rev_length in E. simpl in E. lia.
+  - simpl. rewrite fold_left_app. reflexivity.
+Qed.
+
+Lemma quad_app {X} (l1 l2 : list X) m1 m2 f : length l1 = length m1 ->
+  quad (l1 ++ l2) (m1 ++ m2) f == quad l1 m1 f + quad l2 m2 f.
+Proof.
+  revert m1. induction l1 as [|x l1 IH]; intros [|w m1] H; simpl in H; try discriminate.
+  - unfold quad. simpl. ring.
+  - unfold quad in *. simpl. rewrite IH by lia. ring.
+Qed.
+
+Lemma quad_cons {X} (x : X) l w m f : quad (x :: l) (w :: m) f == w * f x + quad l m f.
+Proof. unfold quad. simpl. reflexivity. Qed.
+
+(* separable integrand  row |-> prod_i f_i(row_i) *)
+Fixpoint prodfun (fs : list (Q -> Q)) (row : list Q) : Q :=
+  match fs, row with
+  | f :: fs', x :: row' => f x * prodfun fs' row'
+  | _, _ => 1
+  end.
+
+Lemma quad_inner (x0 w0 : list Q) (f0 : Q -> Q) fs row Wv :
+  quad (map (fun x => x :: row) x0) (map (Qmult Wv) w0) (prodfun (f0 :: fs))
+  == Wv * prodfun fs row * quad x0 w0 f0.
+Proof.
+  unfold quad. revert w0. induction x0 as [|x x0 IH]; intros [|w w0]; simpl; try ring.
+  rewrite IH. ring.
+Qed.
+
+Lemma quad_prep_kron x0 w0 f0 fs : length x0 = length w0 -> forall R W,
+  quad (prep x0 R) (kron W w0) (prodfun (f0 :: fs)) == quad x0 w0 f0 * quad R W (prodfun fs).
+Proof.
+  intros Hl. induction R as [|row R IH]; intros [|Wv W].
+  - unfold quad. simpl. ring.
+  - unfold quad. simpl. ring.
+  - unfold prep, kron. simpl flat_map at 2. unfold quad at 1.
+    replace (combine _ []) with (@nil (list Q * Q)) by (destruct (flat_map _ _); reflexivity).
+    unfold quad. simpl. ring.
+  - unfold prep, kron. simpl flat_map. fold (prep x0 R). fold (kron W w0).
+    rewrite quad_app by (rewrite !map_length; exact Hl).
+    rewrite IH, quad_inner, quad_cons. ring.
+Qed.
+
+Lemma length_prep x0 R : length (prep x0 R) = (length R * length x0)%nat.
+Proof. unfold prep. induction R; simpl; [reflexivity|]. rewrite app_length, map_length, IHR. reflexivity. Qed.
+Lemma length_kron W w0 : length (kron W w0) = (length W * length w0)%nat.
+Proof. unfold kron. induction W; simpl; [reflexivity|]. rewrite app_length, map_length, IHW. reflexivity. Qed.
+
+(* total versions of the two enumerations for d >= 1 *)
+Definition grid_of (xs : list (list Q)) : list (list Q) :=
+  match xs with [] => [[]] | x0 :: rest => gridmake_rows x0 rest end.
+
+(* rules: ((nodes, weights), (f, I)) with quad nodes weights f == I *)
+Definition rule_ok (r : (list Q * list Q) * ((Q -> Q) * Q)) : Prop :=
+  length (fst (fst r)) = length (snd (fst r)) /\
+  quad (fst (fst r)) (snd (fst r)) (fst (snd r)) == snd (snd r).
+
+Lemma tensor_gen : forall (rest : list ((list Q * list Q) * ((Q -> Q) * Q))) r0,
+  Forall rule_ok (r0 :: rest) ->
+  let rules := map fst (r0 :: rest) in
+  let nodes := grid_of (map fst rules) in
+  let weights := ckron (rev (map snd rules)) in
+  length nodes = length weights /\
+  quad nodes weights (prodfun (map (fun r => fst (snd r)) (r0 :: rest)))
+  == prodq (map (fun r => snd (snd r)) (r0 :: rest)).
+Proof.
+  induction rest as [|r1 rest IH]; intros [[x0 w0] [f0 I0]] H; cbv zeta.
+  - apply Forall_inv in H. destruct H as [Hl Hq]. simpl in *.
+    unfold gridmake_rows. simpl. split; [rewrite map_length; exact Hl|].
+    rewrite <- Hq. unfold quad. clear Hq. revert w0 Hl.
+    induction x0 as [|x x0 IHx]; intros [|w w0] Hl; simpl in *; try discriminate; try ring.
+    rewrite IHx by lia. ring.
+  - pose proof (Forall_inv H) as [Hl Hq]. apply Forall_inv_tail in H. simpl in Hl, Hq.
+    specialize (IH r1 H). cbv zeta in IH. destruct IH as [IHl IHq].
+    destruct r1 as [[x1 w1] [f1 I1]].
+    simpl map in *. simpl grid_of in *.
+    rewrite gridmake_rows_cons, ckron_rev_cons.
+    split.
+    + rewrite length_prep, length_kron. rewrite IHl, Hl. reflexivity.
+    + rewrite quad_prep_kron by exact Hl.
+      change (prodfun (f1 :: map (fun r => fst (snd r)) rest)) with
+             (prodfun (map (fun r => fst (snd r)) (((x1, w1), (f1, I1)) :: rest))).
+      simpl map. rewrite IHq, Hq. simpl. reflexivity.
+Qed.
+
+Lemma kron_pos W w0 : Forall (fun w => 0 < w) W -> Forall (fun w => 0 < w) w0 ->
+  Forall (fun w => 0 < w) (kron W w0).
+Proof.
+  intros HW Hw. unfold kron. induction HW; simpl; [constructor|].
+  apply Forall_app. split; [|assumption].
+  apply Forall_forall. intros v Hv. apply in_map_iff in Hv. destruct Hv as [u [Hv Hu]]. subst v.
+  rewrite Forall_forall in Hw. specialize (Hw u Hu).
+  apply Qmult_lt_0_compat; assumption.
+Qed.
+
+Lemma ckron_rev_pos ws : Forall (Forall (fun w => 0 < w)) ws -> Forall (fun w => 0 < w) (ckron (rev ws)).
+Proof.
+  destruct ws as [|w0 rest]; [constructor|]. revert w0.
+  induction rest as [|w1 rest IH]; intros w0 H.
+  - simpl. apply Forall_inv in H. exact H.
+  - rewrite ckron_rev_cons. apply kron_pos.
+    + apply IH. apply Forall_inv_tail in H. exact H.
+    + apply Forall_inv in H. exact H.
+Qed.
+
+Lemma monomial_prodfun es row : monomial es row = prodfun (map (fun e x => qpow x e) es) row.
+Proof. revert row. induction es as [|e es IH]; intros [|x row]; simpl; try reflexivity. rewrite IH. reflexivity. Qed.
+
+(* ------------------------------------------------------------------ statements used by Props.v *)
+Lemma simp_n_ge3 n0 : (2 <= n0)%nat -> (3 <= simp_n n0)%nat.
+Proof.
+  intros H. unfold simp_n. destruct (Nat.even n0) eqn:E; [lia|].
+  destruct n0 as [|[|[|k]]]; try lia. simpl in E. discriminate.
+Qed.
+
+Lemma simp_spec' n0 a b : (2 <= n0)%nat -> a < b ->
+  exists nodes weights, qnwsimp1 n0 a b = Some (nodes, weights) /\
+    length nodes = simp_n n0 /\ length weights = simp_n n0 /\
+    Forall (fun x => a <= x <= b) nodes /\
+    Forall (fun w => 0 < w) weights /\
+    sumq weights == b - a /\
+    forall c0 c1 c2 c3,
+      quad nodes weights (fun x => c0 + c1 * x + c2 * (x * x) + c3 * (x * x * x))
+      == c0 * (b - a) + c1 * ((b * b - a * a) * (1 # 2))
+         + c2 * ((b * b * b - a * a * a) * (1 # 3))
+         + c3 * ((b * b * b * b - a * a * a * a) * (1 # 4)).
+Proof. intros. apply simp_spec; auto. apply simp_n_ge3; auto. Qed.
+
+Lemma sumq_kron W w0 : sumq (kron W w0) == sumq W * sumq w0.
+Proof.
+  unfold kron. induction W as [|x W IH]; simpl; [ring|].
+  rewrite sumq_app, IH.
+  assert (E : sumq (map (Qmult x) w0) == x * sumq w0).
+  { clear. induction w0; simpl; [ring | rewrite IHw0; ring]. }
+  rewrite E. ring.
+Qed.
+
+Lemma ckron_rev_mass : forall (rest : list (list Q)) w0,
+  sumq (ckron (rev (w0 :: rest))) == prodq (map sumq (w0 :: rest)).
+Proof.
+  induction rest as [|w1 rest IH]; intros w0.
+  - simpl. ring.
+  - rewrite ckron_rev_cons, sumq_kron, IH. simpl. ring.
+Qed.
+
+Lemma tensor_spec (rs : list ((list Q * list Q) * ((Q -> Q) * Q))) :
+  (2 <= length rs)%nat ->
+  Forall (fun r => length (fst (fst r)) = length (snd (fst r)) /\
+                   quad (fst (fst r)) (snd (fst r)) (fst (snd r)) == snd (snd r)) rs ->
+  exists nodes weights, tensor_rule (map fst rs) = Some (nodes, weights) /\
+    length nodes = length weights /\
+    (Forall (fun r => Forall (fun w => 0 < w) (snd (fst r))) rs -> Forall (fun w => 0 < w) weights) /\
+    sumq weights == prodq (map (fun r => sumq (snd (fst r))) rs) /\
+    quad nodes weights (prodfun (map (fun r => fst (snd r)) rs)) == prodq (map (fun r => snd (snd r)) rs).
+Proof.
+  intros Hd H. destruct rs as [|r0 [|r1 rest]]; simpl in Hd; try lia.
+  pose proof (tensor_gen (r1 :: rest) r0 H) as T. cbv zeta in T. destruct T as [Tl Tq].
+  unfold tensor_rule. simpl map. simpl gridmake.
+  eexists; eexists; split; [reflexivity|].
+  simpl map in Tl, Tq. simpl grid_of in Tl, Tq.
+  split; [exact Tl|]. split; [|split; [|exact Tq]].
+  - intros Hp. change (snd (fst r0) :: snd (fst r1) :: map snd (map fst rest))
+      with (map snd (map fst (r0 :: r1 :: rest))).
+    apply ckron_rev_pos. rewrite map_map. apply Forall_map. exact Hp.
+  - rewrite ckron_rev_mass. simpl. rewrite !map_map. reflexivity.
 Qed.
